@@ -254,8 +254,8 @@ def run(run, tier, replay):
         total_drift = 0
 
         # 3. behaviours: all generator runs first (a few TLC processes at a time)
-        nsim = 1500 if quick else 40000
-        nsched = 400 if quick else 6000
+        nsim = 1500 if quick else 30000
+        nsched = 400 if quick else 4000
         gjobs = [("Gen_Task", cfg, None, None) for cfg in GEN_TASK_EXH] + \
                 [("Gen_Task", cfg, nsim, 140) for cfg in GEN_TASK_SIM] + \
                 [("Gen_TaskRemote", cfg, nsched, 110) for cfg in GEN_REMOTE]
@@ -357,7 +357,7 @@ def run(run, tier, replay):
         if nm < k or k == 0:
             raise vlib.ToolError("negative control (replay_remote): %d corrupted schedules, %d divergences noticed" % (k, nm))
         # free-running leg (no controller): an awaiting joiner on another thread against completion
-        nst = 200 if quick else 4000
+        nst = 200 if quick else 2000
         s, d = _bin_lines("replay_remote", ["--stress", nst, vlib.seed()], timeout=6000)
         total_drift += classify(run, s, d, "free-running join stress")
         run.add_traces(s["cases"])
